@@ -364,6 +364,19 @@ def opHPrune (j : Json) : Json :=
         ("T", Json.arr (c.pins.map fun x => Json.arr (c.pins.map fun y => gratToJson (c.sem x y)).toArray).toArray)])
   | _ => errJson "parse"
 
+/-- op `hempty`: the criterion of `Solver.prune()` itself on the description (`HNet.emptyRec`, `HNet.keepSet`) and the solve of
+the level it keeps (`HNet.keepLevel`) -/
+def opHEmpty (j : Json) : Json :=
+  match (j.getObjVal? "tree").toOption >>= parseTree with
+  | some (.node cs links exposed) =>
+    let base := [("empty", Json.bool (HNet.node cs links exposed).emptyRec), ("keep", toJson (HNet.keepSet cs)),
+      ("live", toJson (HNet.liveSet cs)), ("wftree", (HNet.node cs links exposed).wfTreeB)]
+    match HNet.solveH Solve.pySched (HNet.keepLevel (.node cs links exposed)) with
+    | .error e => Json.mkObj (base ++ [("err", Json.str (errName e))])
+    | .ok c => Json.mkObj (base ++ [("pins", toJson c.pins),
+        ("T", Json.arr (c.pins.map fun x => Json.arr (c.pins.map fun y => gratToJson (c.sem x y)).toArray).toArray)])
+  | _ => errJson "parse"
+
 /-- op `monsolve`: the monitor path of `Solver.solve` (`Monitor.solveMonitored` with the pin-count heuristic) -/
 def opMonSolve (j : Json) : Json :=
   match fromJson? (α := CaseJ) j with
@@ -404,6 +417,7 @@ def dispatch (j : Json) : Json :=
   | some "hflatten" => opHFlatten j
   | some "hsplit" => opHSplit j
   | some "hprune" => opHPrune j
+  | some "hempty" => opHEmpty j
   | some "wsolve" => opWSolve j
   | some "phsolve" => opPHSolve j
   | some "pflatten" => opPFlatten j
